@@ -18,20 +18,19 @@ structure Frame where
 
 def Frame.close (f : Frame) : Node := .elem f.name f.attrs false f.rev.reverse
 
-/-- Parser state: `_inTag` (innermost first), the root once it is complete, `doctype`. -/
-structure BState where
+/-- The tree part of the parser state: `_inTag` (innermost first) and the root once it is complete. -/
+structure TState where
   stack : List Frame
   root : Option Node
-  doctype : Option Str
   deriving Repr, Inhabited
 
-def BState.init : BState := ⟨[], none, none⟩
+def TState.init : TState := ⟨[], none⟩
 
 /-- `self.root is not None` -/
-def BState.hasRoot (s : BState) : Bool := !s.stack.isEmpty || s.root.isSome
+def TState.hasRoot (s : TState) : Bool := !s.stack.isEmpty || s.root.isSome
 
-inductive Outcome where
-  | ok (s : BState)
+inductive Outcome (σ : Type) where
+  | ok (s : σ)
   | multipleRoot                 -- MultipleRootNodeException
   | invalidClose                 -- validating parser only
   | missedClose
@@ -39,29 +38,27 @@ inductive Outcome where
   deriving Repr, Inhabited
 
 /-- append a finished block to the innermost open element, or make it the root -/
-def addNode (s : BState) (c : Node) : BState :=
+def addNode (s : TState) (c : Node) : TState :=
   match s.stack with
   | f :: fs => { s with stack := { f with rev := c :: f.rev } :: fs }
   | [] => { s with root := some c }
 
 /-- `inTag.pop()` -/
-def pop1 (s : BState) : BState :=
+def pop1 (s : TState) : TState :=
   match s.stack with
   | f :: fs => addNode { s with stack := fs } f.close
   | [] => s
 
 /-- `while inTag[-1].tagName != tagName: inTag.pop()` then `inTag.pop()` (the caller checked presence) -/
-def popTo (n : Str) : Nat → BState → BState
+def popTo (n : Str) : Nat → TState → TState
   | 0, s => s
   | k + 1, s =>
     match s.stack with
     | f :: _ => if f.name = n then pop1 s else popTo n k (pop1 s)
     | [] => s
 
-def isBlank (s : Str) : Bool := (strip s).isEmpty
-
 /-- `handle_starttag` / `handle_startendtag` -/
-def handleStart (s : BState) (n : Str) (a : List Attr) (selfClosing : Bool) : Outcome :=
+def handleStart (s : TState) (n : Str) (a : List Attr) (selfClosing : Bool) : Outcome TState :=
   let n := lower n
   let sc := selfClosing || isVoid n
   let attrs := intake a AttrState.empty
@@ -70,14 +67,15 @@ def handleStart (s : BState) (n : Str) (a : List Attr) (selfClosing : Bool) : Ou
     else .ok { s with stack := ⟨n, attrs, []⟩ :: s.stack }
   else .multipleRoot
 
-def handleEnd (s : BState) (n : Str) : BState :=
+def handleEnd (s : TState) (n : Str) : TState :=
   if (s.stack.map (·.name)).contains n then popTo n s.stack.length s else s
 
 /-- text-like callbacks that insist on an open element -/
-def addTextStrict (s : BState) (t : Str) : Outcome :=
+def addTextStrict (s : TState) (t : Str) : Outcome TState :=
   if s.stack.isEmpty then .multipleRoot else .ok (addNode s (.text t))
 
-def step (s : BState) : Token → Outcome
+/-- the handlers' effect on the tree (`handle_decl`, `unknown_decl`, `handle_pi` do not touch it) -/
+def stepT (s : TState) : Token → Outcome TState
   | .start n a => handleStart s n a false
   | .startend n a => handleStart s n a true
   | .end_ n => .ok (handleEnd s n)
@@ -88,64 +86,103 @@ def step (s : BState) : Token → Outcome
   | .entity e => addTextStrict s ('&' :: e ++ [';'])
   | .charref c => addTextStrict s ('&' :: '#' :: c ++ [';'])
   | .comment c => addTextStrict s ("<!--".toList ++ c ++ "-->".toList)
-  | .decl d => .ok { s with doctype := some d }
-  | .unknownDecl d =>
-    match s.doctype with
-    | some d0 => if d0.isEmpty then .ok { s with doctype := some d } else .ok s
-    | none => .ok { s with doctype := some d }
+  | .decl _ => .ok s
+  | .unknownDecl _ => .ok s
   | .pi _ => .ok s
 
-def run (s : BState) : List Token → Outcome
+/-- `handle_decl` / `unknown_decl`: every declaration replaces the doctype, an unknown declaration only fills a gap -/
+def stepD (dt : Option Str) : Token → Option Str
+  | .decl d => some d
+  | .unknownDecl d =>
+    match dt with
+    | some d0 => if d0.isEmpty then some d else dt
+    | none => some d
+  | _ => dt
+
+/-- Parser state: the tree part and `doctype`. -/
+structure BState where
+  tree : TState
+  doctype : Option Str
+  deriving Repr, Inhabited
+
+def BState.init : BState := ⟨TState.init, none⟩
+
+def Outcome.map {σ τ : Type} (f : σ → τ) : Outcome σ → Outcome τ
+  | .ok s => .ok (f s)
+  | .multipleRoot => .multipleRoot
+  | .invalidClose => .invalidClose
+  | .missedClose => .missedClose
+  | .invalidAttr => .invalidAttr
+
+/-- one tokenizer callback -/
+def step (s : BState) (t : Token) : Outcome BState :=
+  (stepT s.tree t).map (fun tr => ⟨tr, stepD s.doctype t⟩)
+
+def runT (s : TState) : List Token → Outcome TState
+  | [] => .ok s
+  | t :: ts => match stepT s t with
+    | .ok s' => runT s' ts
+    | .multipleRoot => .multipleRoot
+    | .invalidClose => .invalidClose
+    | .missedClose => .missedClose
+    | .invalidAttr => .invalidAttr
+
+def run (s : BState) : List Token → Outcome BState
   | [] => .ok s
   | t :: ts => match step s t with
     | .ok s' => run s' ts
-    | o => o
+    | .multipleRoot => .multipleRoot
+    | .invalidClose => .invalidClose
+    | .missedClose => .missedClose
+    | .invalidAttr => .invalidAttr
 
 /-- end of input: everything still open is closed (the tree is already linked in the code) -/
-def closeAll : Nat → BState → BState
+def closeAll : Nat → TState → TState
   | 0, s => s
   | k + 1, s => match s.stack with
     | [] => s
     | _ :: _ => closeAll k (pop1 s)
 
-def finish (s : BState) : BState := closeAll s.stack.length s
+def finish (s : TState) : TState := closeAll s.stack.length s
 
-/-- The parsed document as the public API shows it. -/
-structure Doc where
-  doctype : Option Str
-  root : Option Node
-  deriving Repr, Inhabited
-
-def BState.doc (s : BState) : Doc := ⟨s.doctype, (finish s).root⟩
-
-def wsNL (s : Str) : Bool :=
-  -- `[\n]*[ \t]*` of DOCTYPE_MATCH
-  ((s.dropWhile (· = '\n')).dropWhile (fun c => c = ' ' || c = '\t')).isEmpty
+def BState.doc (s : BState) : Doc := ⟨s.doctype, (finish s.tree).root⟩
 
 /-- token-level `addStartTag(contents, '<xxxblank>') + '</xxxblank>'`: the wrapper start goes after a leading
     doctype (optionally preceded by newlines then blanks), else in front. -/
 def wrapToks (toks : List Token) : List Token :=
   let w := Token.start wrapperName []
   let e := Token.end_ wrapperName
-  match toks with
-  | .decl d :: r => .decl d :: w :: r ++ [e]
-  | .data ws :: .decl d :: r => if wsNL ws then .data ws :: .decl d :: w :: r ++ [e] else w :: toks ++ [e]
-  | _ => w :: toks ++ [e]
+  match leadDoctype toks with
+  | some (pre, r) => pre ++ w :: r ++ [e]
+  | none => w :: toks ++ [e]
+
+/-- exceptions a parse can end with -/
+inductive Exc where
+  | multipleRoot | invalidClose | missedClose | invalidAttr
+  deriving Repr, Inhabited, DecidableEq
 
 inductive FeedResult where
   | doc (d : Doc) (secondPass : Bool)
-  | raised (o : Outcome)
+  | raised (e : Exc)
   deriving Repr, Inhabited
 
 /-- `feed` after `reset`: first pass; on MultipleRootNodeException reset and parse inside the wrapper. -/
+def Outcome.exc {σ : Type} : Outcome σ → Exc
+  | .ok _ => .multipleRoot     -- not used on `ok`
+  | .multipleRoot => .multipleRoot
+  | .invalidClose => .invalidClose
+  | .missedClose => .missedClose
+  | .invalidAttr => .invalidAttr
+
+/-- a pass that is not retried: its document or its exception -/
+def FeedResult.ofPass (second : Bool) : Outcome BState → FeedResult
+  | .ok s => .doc s.doc second
+  | o => .raised o.exc
+
 def feedTokens (toks : List Token) : FeedResult :=
   match run BState.init toks with
-  | .ok s => .doc s.doc false
-  | .multipleRoot =>
-    match run BState.init (wrapToks toks) with
-    | .ok s => .doc s.doc true
-    | o => .raised o
-  | o => .raised o
+  | .multipleRoot => FeedResult.ofPass true (run BState.init (wrapToks toks))
+  | o => FeedResult.ofPass false o
 
 /-- `getRootNodes` -/
 def Doc.rootNodes (d : Doc) : List Node :=
@@ -159,7 +196,7 @@ def Doc.html (d : Doc) : Option Str := d.root.map (docHTML d.doctype)
 
 /-! ### validating parser (Validator.py) -/
 
-def vStep (s : BState) : Token → Outcome
+def vStepT (s : TState) : Token → Outcome TState
   | .start n a =>
     if a.all (fun p => validAttrName p.1) then handleStart s n a false else .invalidAttr
   | .startend n a =>
@@ -172,21 +209,23 @@ def vStep (s : BState) : Token → Outcome
       if !(s.stack.map (·.name)).contains n then .invalidClose
       else if f.name ≠ n then .missedClose
       else .ok (pop1 s)
-  | t => step s t
+  | t => stepT s t
 
-def vRun (s : BState) : List Token → Outcome
+def vStep (s : BState) (t : Token) : Outcome BState :=
+  (vStepT s.tree t).map (fun tr => ⟨tr, stepD s.doctype t⟩)
+
+def vRun (s : BState) : List Token → Outcome BState
   | [] => .ok s
   | t :: ts => match vStep s t with
     | .ok s' => vRun s' ts
-    | o => o
+    | .multipleRoot => .multipleRoot
+    | .invalidClose => .invalidClose
+    | .missedClose => .missedClose
+    | .invalidAttr => .invalidAttr
 
 def vFeedTokens (toks : List Token) : FeedResult :=
   match vRun BState.init toks with
-  | .ok s => .doc s.doc false
-  | .multipleRoot =>
-    match vRun BState.init (wrapToks toks) with
-    | .ok s => .doc s.doc true
-    | o => .raised o
-  | o => .raised o
+  | .multipleRoot => FeedResult.ofPass true (vRun BState.init (wrapToks toks))
+  | o => FeedResult.ofPass false o
 
 end AHP
